@@ -189,7 +189,11 @@ class Intervals:
             a = A(0)
             return a if a[0] >= 0 else type_range(i.ops[0]["t"])
         if op == "sext":
-            return A(0)
+            a = A(0); sb = type_bits(i.ops[0]["t"]) or 64; half = 1 << (sb - 1)
+            if a[0] < 0 or a[1] == INF: return a
+            if a[1] < half: return a                                   # non-negative in the source type
+            if a[0] >= half: return (a[0] - (1 << sb), a[1] - (1 << sb))   # negative throughout: the signed value
+            return (-half, half - 1)
         if op == "trunc":
             a = A(0)
             if a[0] >= 0 and a[1] <= top[1]: return a
